@@ -151,7 +151,8 @@ pub fn build_fx(spec: &FxSpec) -> (Box<dyn Effect>, FxHandle) {
 				_ => 0.0,
 			};
 			let (e, h) = b.build();
-			(e, FxHandle::Delay(h, if inner_db > 0.0 { (-inner_db - 1.0).max(-59.0) } else { 0.0 }))
+			// (no floor at -59 dB: with more than 59 dB of gain in the loop only a silent feedback keeps the loop gain below unity)
+			(e, FxHandle::Delay(h, if inner_db > 0.0 { -inner_db - 1.0 } else { 0.0 }))
 		}
 		FxSpec::Reverb { feedback, damping, width, mix } => {
 			let (e, h) = ReverbBuilder::new().feedback(feedback).damping(damping).stereo_width(width).mix(Mix(mix)).build();
@@ -1069,7 +1070,7 @@ impl World {
 						},
 						FxHandle::Delay(h, max_fb) => match which % 2 {
 							// the loop gain stays below unity: above it the echo diverges by construction
-							0 => h.set_feedback(dbv(-59.0, *max_fb), tw),
+							0 => h.set_feedback(dbv((*max_fb - 40.0).min(-59.0), *max_fb), tw),
 							_ => h.set_mix(mixv(), tw),
 						},
 						FxHandle::Reverb(h) => match which % 4 {
